@@ -190,4 +190,9 @@ def listing_entries(pg: Page) -> List[Dict[str, Any]]:
             direct = links_in(li)
             if direct and li.parentNode is not None and getattr(li.parentNode, 'tagName', '') == 'ul':
                 out.append({'kind': 'index-item', 'classes': _classes(li), 'links': [direct[0]]})
+        elif pg.name == 'classIndex.html':
+            # the class hierarchy: an entry stands for the class and for the subclasses nested below it
+            direct = links_in(li)
+            if direct and li.parentNode is not None and getattr(li.parentNode, 'tagName', '') == 'ul':
+                out.append({'kind': 'classindex-item', 'classes': _classes(li), 'links': [direct[0]]})
     return out
